@@ -79,10 +79,35 @@ def w_special(ctx, rng, idx):
     call('quantum_computation.sampling', qc.sampling, t, sub, N, prop=P)
 
 
+def w_sequence(ctx, rng, idx):
+    """call sequences on ONE live state object: sample, apply single-qubit gates in place (a unitary on a physical leg keeps the
+    state normalised and right-orthonormal), sample again with the same / another measure list - anything remembered between
+    calls (keyed on the object rather than its value) shows only here"""
+    n = int(rng.integers(1, 6))
+    psi = state(rng, n)
+    subs = [sorted(int(i) for i in rng.choice(n, size=int(rng.integers(1, n + 1)), replace=False)) for _ in range(2)]
+    ctx.describe({'op': 'sampling sequence', 'qubits': n, 'measure_lists': subs, 'ranks': psi.ranks})
+    for step in range(int(rng.integers(3, 7))):
+        sub = subs[int(rng.integers(0, 2))]
+        N = [1, 50, 400][int(rng.integers(0, 3))]
+        call('quantum_computation.sampling', qc.sampling, psi, list(sub), N, prop=P, tags=['sequence'])
+        if rng.random() < 0.7:
+            j = int(rng.integers(0, n))
+            a = rng.standard_normal((2, 2)) + 1j * rng.standard_normal((2, 2))
+            u, _ = np.linalg.qr(a)
+            with probe.oracle():
+                if rng.random() < 0.5:
+                    psi.cores[j] = np.einsum('ab,rbcs->racs', u, psi.cores[j])  # rebinding the list entry
+                else:
+                    psi.cores[j][...] = np.einsum('ab,rbcs->racs', u, psi.cores[j].astype(complex)) if np.iscomplexobj(psi.cores[j]) else psi.cores[j]
+                    # (a real core cannot hold the complex result in place: left as it is)
+
+
 WORKLOADS = [
     Workload('subsets', w_subsets, None, None, enum=enum_subsets),
     Workload('random', w_random, 160, 3000),
     Workload('special', w_special, 60, 1200),
+    Workload('sequence', w_sequence, 80, 1500),
 ]
 REQUIRED = ['C20|quantum_computation.sampling:equals_inverse_cdf_sampling_of_born_marginal', 'C20|quantum_computation.sampling:frequencies_sum_to_one',
             'C20|quantum_computation.sampling:bit_strings_distinct', 'C20|quantum_computation.sampling:frequencies_converge_to_born_marginal',
